@@ -22,18 +22,30 @@ Fixpoint scan_i64 (op : Z -> Z -> Z) (signed : bool) (acc : Z) (l : list Z) : li
 Definition reduce_store (f : fmt) (r : rmode) (o : omode) (zs : list Z) : outcome wres :=
   set_val_real f r o true (if 64 <=? nw f then AObj (map NI zs) else AI64 zs) VInt.
 
+(* functions._accum_cast (fix aaa3394): when the exact result may need 64 bits or more - the optimal result word - the raw
+   arrays are cast to Python integers before the NumPy reduction, which is then exact *)
+Definition sum_py (l : list Z) : Z := fold_left Z.add l 0.
+Definition prod_py (l : list Z) : Z := fold_left Z.mul l 1.
+Fixpoint scan_py (op : Z -> Z -> Z) (acc : Z) (l : list Z) : list Z :=
+  match l with [] => [] | c :: t => let a := op acc c in a :: scan_py op a t end.
+
 (* sum of one slice of `count_total`-sized x (x.size drives the growth whatever the axis) *)
 Definition fxp_sum (f : fmt) (total : Z) (slice : list Z) (r : rmode) (o : omode) : outcome (fmt * wres) :=
-  let fz := sum_fmt f total in bind (reduce_store fz r o [sum_i64 (sg f) slice]) (fun w => Ok (fz, w)).
+  let fz := sum_fmt f total in
+  bind (reduce_store fz r o [if 64 <=? nw fz then sum_py slice else sum_i64 (sg f) slice]) (fun w => Ok (fz, w)).
 Definition fxp_cumsum (f : fmt) (total : Z) (slice : list Z) (r : rmode) (o : omode) : outcome (fmt * wres) :=
-  let fz := sum_fmt f total in bind (reduce_store fz r o (scan_i64 Z.add (sg f) 0 slice)) (fun w => Ok (fz, w)).
+  let fz := sum_fmt f total in
+  bind (reduce_store fz r o (if 64 <=? nw fz then scan_py Z.add 0 slice else scan_i64 Z.add (sg f) 0 slice)) (fun w => Ok (fz, w)).
 Definition fxp_prod (f : fmt) (count : Z) (slice : list Z) (r : rmode) (o : omode) : outcome (fmt * wres) :=
-  let fz := prod_fmt f count in bind (reduce_store fz r o [prod_i64 (sg f) slice]) (fun w => Ok (fz, w)).
+  let fz := prod_fmt f count in
+  bind (reduce_store fz r o [if 64 <=? nw fz then prod_py slice else prod_i64 (sg f) slice]) (fun w => Ok (fz, w)).
 (* dot of two vectors (one entry of a matrix product): sum of products *)
 Definition fxp_dot (fx fy : fmt) (xs ys : list Z) (r : rmode) (o : omode) : outcome (fmt * wres) :=
   let fz := dot_fmt fx fy (Z.of_nat (length xs)) in
   let prods := map (fun p => fst p * snd p) (combine xs ys) in
-  bind (reduce_store fz r o [sum_i64 true prods]) (fun w => Ok (fz, w)).
+  (* (Python integers also when an int64 and an uint64 operand would be promoted to float64 beyond its 53 bits: _raw_cast) *)
+  let wide := (64 <=? nw fz) || (negb (Bool.eqb (sg fx) (sg fy)) && (53 <? nw fz)) in
+  bind (reduce_store fz r o [if wide then sum_py prods else sum_i64 true prods]) (fun w => Ok (fz, w)).
 
 (* cumprod (functions.py cumprod): the k-th running product has k * n_frac fraction bits; the result keeps
    n * n_frac of them, so the k-th raw product is multiplied by 2^((n - k) * n_frac).  The word: the larger of
